@@ -10,7 +10,7 @@ from simkit.kernel import HarnessError, Sim
 
 ID = "C19"
 LEVEL = "exploration"
-RUNS = {"quick": 12000, "thorough": 400000}
+RUNS = {"quick": 50000, "thorough": 1000000}
 RULE = ("row-level audit by the reference decoder of every stream the real writers emit in seeded runs (both "
         "integrations, three physical types, tables from 'constant eviction' to 'never evict'): redundant entry rows, "
         "missed elisions, explicit ids where zero was equivalent, graph_start rows vs maximal runs of equal graph "
